@@ -64,7 +64,7 @@ func emitStructView(out *Out, r *Rng) {
 		doc["expirationDate"] = c.Expiration.In(time.FixedZone("", 19800)).Format(time.RFC3339Nano)
 	}
 	if r.Bool() {
-		doc["issuanceDate"] = c.Issuance.Add(time.Duration(r.Intn(999))*time.Millisecond).In(time.FixedZone("", -3600*8)).Format(time.RFC3339Nano)
+		doc["issuanceDate"] = c.Issuance.Add(time.Duration(r.Intn(999)) * time.Millisecond).In(time.FixedZone("", -3600*8)).Format(time.RFC3339Nano)
 	}
 	// the context for refreshService/displayMethod terms
 	loader := c.loader()
@@ -155,7 +155,9 @@ func emitStructView(out *Out, r *Rng) {
 		}
 		impl["kinds"] = kinds
 		reg := &verifiable.CredentialStatusResolverRegistry{}
-		reg.Register(verifiable.SparseMerkleTreeProof, statusResolver{func(st verifiable.CredentialStatus) (verifiable.RevocationStatus, error) { return s.is.RevStatus(st.RevocationNonce), nil }})
+		reg.Register(verifiable.SparseMerkleTreeProof, statusResolver{func(st verifiable.CredentialStatus) (verifiable.RevocationStatus, error) {
+			return s.is.RevStatus(st.RevocationNonce), nil
+		}})
 		for _, pt := range []verifiable.ProofType{verifiable.BJJSignatureProofType, verifiable.Iden3SparseMerkleTreeProofType} {
 			calls := 0
 			mode := "unpublished"
